@@ -263,6 +263,7 @@ type Frame struct {
 	lets     map[string]Val
 	callOrd  map[string]int
 	regionLoop *LoopInfo // body contracts: the loop whose (extended) region is being encoded
+	unroll     *unrollCtx // non-nil while the iterations of an `unroll N` loop are being encoded
 }
 
 func (e *Enc) newFrame(fn *ssa.Function, depth int, path string) *Frame {
@@ -663,7 +664,11 @@ func (e *Enc) run(fr *Frame, start *ssa.BasicBlock, g0 T, st0 *State) {
 	order := rpo(fr.fn, start, fr.region)
 	fr.guards[start.Index] = g0
 	startState := st0
+	skip := map[*ssa.BasicBlock]bool{}
 	for _, b := range order {
+		if skip[b] {
+			continue
+		}
 		var guard T
 		var st *State
 		if b == start {
@@ -713,6 +718,13 @@ func (e *Enc) run(fr *Frame, start *ssa.BasicBlock, g0 T, st0 *State) {
 				fr.vals[phi] = e.nameVal(val, phi.Comment)
 			}
 			if li := fr.loops[b]; li != nil {
+				if spec := e.loopSpec(fr, li); spec != nil && spec.Unroll > 0 {
+					e.unrollLoop(fr, li, spec.Unroll, guard, st)
+					for blk := range li.blocks {
+						skip[blk] = true
+					}
+					continue
+				}
 				guard, st = e.loopHeader(fr, li, guard, st)
 			}
 		}
@@ -1060,6 +1072,161 @@ func (e *Enc) discoverWrites(fr *Frame, li *LoopInfo, guard T, st *State) map[st
 	return w
 }
 
+type unrollEdge struct {
+	from, to *ssa.BasicBlock
+	guard    T
+	st       *State
+}
+
+type unrollCtx struct {
+	li    *LoopInfo
+	back  []unrollEdge
+	exits []unrollEdge
+}
+
+// unrollLoop encodes an `unroll N` loop exactly: N copies of the body, an obligation that no
+// N+1st iteration is possible (unwinding assertion), exits of all iterations merged. Values
+// defined in the loop and used after it are the ones of the iteration in which the loop was left.
+func (e *Enc) unrollLoop(fr *Frame, li *LoopInfo, n int, guard T, st *State) {
+	hdr := li.header
+	outer := fr.unroll
+	defer func() { fr.unroll = outer }()
+	type exitRec struct {
+		ed   unrollEdge
+		iter int
+	}
+	var exits []exitRec
+	var iterVals []map[ssa.Value]Val
+	var iterExit []T
+	g, s := guard, st
+	for k := 0; k <= n; k++ {
+		if k == n {
+			// unwinding assertion: the loop cannot start another iteration
+			e.oblige("unwind", fmt.Sprintf("loop%d:at most %d iterations", li.ord, n), True, Not(g), "loop unrolled exactly", hdr.Instrs[0].Pos())
+			break
+		}
+		u := &unrollCtx{li: li}
+		fr.unroll = u
+		for key := range fr.edges {
+			if blk := fr.fn.Blocks[key[0]]; li.blocks[blk] {
+				delete(fr.edges, key)
+			}
+		}
+		e.runRegion(fr, li, g, s)
+		fr.unroll = outer
+		vals := map[ssa.Value]Val{}
+		for b := range li.blocks {
+			for _, ins := range b.Instrs {
+				if v, ok := ins.(ssa.Value); ok {
+					if x, has := fr.vals[v]; has {
+						vals[v] = x
+					}
+				}
+			}
+		}
+		iterVals = append(iterVals, vals)
+		var eg []T
+		for _, x := range u.exits {
+			exits = append(exits, exitRec{x, k})
+			eg = append(eg, x.guard)
+		}
+		iterExit = append(iterExit, e.define(Or(eg...), fmt.Sprintf("unroll_exit%d", k)))
+		if len(u.back) == 0 {
+			break
+		}
+		// next iteration: header phis take the values flowing along the back edges
+		var gs []T
+		var sts []*State
+		for _, be := range u.back {
+			gs = append(gs, be.guard)
+			sts = append(sts, be.st)
+		}
+		newPhis := map[*ssa.Phi]Val{}
+		for _, ins := range hdr.Instrs {
+			phi, ok := ins.(*ssa.Phi)
+			if !ok {
+				break
+			}
+			var val Val
+			first := true
+			for j := len(u.back) - 1; j >= 0; j-- {
+				be := u.back[j]
+				idx := -1
+				for i, p := range hdr.Preds {
+					if p == be.from {
+						idx = i
+					}
+				}
+				e.st = be.st
+				v := e.get(fr, phi.Edges[idx])
+				v.Typ = phi.Type()
+				if first {
+					val, first = v, false
+				} else {
+					val = e.iteVal(be.guard, v, val)
+				}
+			}
+			newPhis[phi] = e.nameVal(val, phi.Comment)
+		}
+		for phi, v := range newPhis {
+			fr.vals[phi] = v
+		}
+		g = e.define(Or(gs...), fmt.Sprintf("g_unroll%d", k+1))
+		s = e.mergeStates(gs, sts)
+	}
+	// values visible after the loop: those of the iteration in which the loop was left
+	seen := map[ssa.Value]bool{}
+	for k := len(iterVals) - 1; k >= 0; k-- {
+		for v, x := range iterVals[k] {
+			if !seen[v] {
+				seen[v] = true
+				fr.vals[v] = x // last iteration that defined it: default
+			}
+		}
+	}
+	for v := range seen {
+		var cur Val
+		first := true
+		for k := len(iterVals) - 1; k >= 0; k-- {
+			x, ok := iterVals[k][v]
+			if !ok || x.Tup != nil || x.Fn != nil {
+				continue
+			}
+			if first {
+				cur, first = x, false
+				continue
+			}
+			if len(x.L) != len(cur.L) {
+				continue
+			}
+			cur = e.iteVal(iterExit[k], x, cur)
+		}
+		if !first {
+			fr.vals[v] = cur
+		}
+	}
+	// exit edges, merged per (from, to)
+	type key [2]int
+	groups := map[key][]exitRec{}
+	var order []key
+	for _, x := range exits {
+		kk := key{x.ed.from.Index, x.ed.to.Index}
+		if _, ok := groups[kk]; !ok {
+			order = append(order, kk)
+		}
+		groups[kk] = append(groups[kk], x)
+	}
+	for _, kk := range order {
+		var gs []T
+		var sts []*State
+		for _, x := range groups[kk] {
+			gs = append(gs, x.ed.guard)
+			sts = append(sts, x.ed.st)
+		}
+		fr.edges[[2]int{kk[0], kk[1]}] = &Edge{guard: e.define(Or(gs...), "g_unroll_exit"), st: e.mergeStates(gs, sts)}
+	}
+}
+
 // runRegion encodes the blocks of a loop starting at its header (header phis must be set).
 func (e *Enc) runRegion(fr *Frame, li *LoopInfo, guard T, st *State) {
 	blocks := li.blocks
@@ -1067,7 +1234,11 @@ func (e *Enc) runRegion(fr *Frame, li *LoopInfo, guard T, st *State) {
 		blocks = fr.region // body contract: the loop plus its break/return tails
 	}
 	order := rpo(fr.fn, li.header, blocks)
+	skipR := map[*ssa.BasicBlock]bool{}
 	for _, b := range order {
+		if skipR[b] {
+			continue
+		}
 		var g T
 		var s *State
 		if b == li.header {
@@ -1110,6 +1281,13 @@ func (e *Enc) runRegion(fr *Frame, li *LoopInfo, guard T, st *State) {
 				fr.vals[phi] = e.nameVal(val, phi.Comment)
 			}
 			if inner := fr.loops[b]; inner != nil && inner != li {
+				if spec := e.loopSpec(fr, inner); spec != nil && spec.Unroll > 0 {
+					e.unrollLoop(fr, inner, spec.Unroll, g, s)
+					for blk := range inner.blocks {
+						skipR[blk] = true
+					}
+					continue
+				}
 				g, s = e.loopHeader(fr, inner, g, s)
 			}
 		}
@@ -1137,6 +1315,16 @@ func (e *Enc) block(fr *Frame, b *ssa.BasicBlock, guard T, st *State) {
 func (e *Enc) edge(fr *Frame, from, to *ssa.BasicBlock, guard T, st *State) {
 	if guard.E == "false" {
 		return
+	}
+	if u := fr.unroll; u != nil && u.li.blocks[from] {
+		if to == u.li.header {
+			u.back = append(u.back, unrollEdge{from, to, guard, st})
+			return
+		}
+		if !u.li.blocks[to] {
+			u.exits = append(u.exits, unrollEdge{from, to, guard, st})
+			return
+		}
 	}
 	if to.Dominates(from) {
 		// back edge
